@@ -17,9 +17,16 @@ func init() {
 var vEnvNames = [nOpts]string{"VA", "VB", "VO", "VE"}
 var vEnvVals = [nOpts]string{"true", "true", "v", "w"}
 
-// vSymbolicEnv sets a symbolic subset of the four variables; returns the mask.
+// vEnvCandidates: which of the four variables may be set (bit i = option i); the
+// others stay unset. 15 = every subset of all four.
+var vEnvCandidates = 15
+
+// vSymbolicEnv sets a symbolic subset of the candidate variables; returns the mask.
 func vSymbolicEnv() (set [nOpts]bool) {
 	for i := 0; i < nOpts; i++ {
+		if vEnvCandidates&(1<<uint(i)) == 0 {
+			continue
+		}
 		if vNondetBool("env." + vEnvNames[i]) {
 			vSetenv(vEnvNames[i], vEnvVals[i])
 			set[i] = true
@@ -35,6 +42,7 @@ func H_apply_total() {
 	spec := vParamString("spec")
 	_, ok := rParseSpec(spec)
 	vAssert(ok, "family spec is not well-formed for the reference")
+	vEnvCandidates = vParamInt("envmask")
 	set := vSymbolicEnv()
 	argv := vArgvFor(vParamString("profile"))
 	vNoHelp(argv)
